@@ -329,6 +329,10 @@ class Output(object):
         if descs is None:
             if self.axis == verif.axis.Threshold():
                 descs = {"Threshold": self.thresholds}
+            elif self.axis == verif.axis.Obs():
+                descs = {"Observed": self.thresholds}
+            elif self.axis == verif.axis.Fcst():
+                descs = {"Forecasted": self.thresholds}
             else:
                 descs = data.get_axis_descriptions(self.axis)
         s = ','.join(descs.keys()) + ',' + ','.join(labels) + '\n'
